@@ -19,6 +19,31 @@ CONFIGS = ["build", "assert"]
 OP_MASK = 0x7800
 
 
+def rule_reply_items(P):
+    """request_parse's failure exit frees the questions and the request - nothing else.  A reply item added while parsing (the OPT pseudo-record announcing the client's reply size) is owned by
+    the request and would be lost there: after such an addition no path may reach the bare free of the request."""
+    r = Rule("C37-reply-items", "K11", "request_parse: once a reply item has been attached to the request, no path reaches the failure exit that frees the request without its reply items", floor=2)
+    f = P.fn("request_parse")
+    adds = [el for el in f.calls() if callee_name(el.e) in ("evdns_server_request_add_reply", "evdns_server_request_add_a_reply", "evdns_server_request_add_aaaa_reply",
+                                                             "evdns_server_request_add_ptr_reply", "evdns_server_request_add_cname_reply")]
+    bare = [el for el in f.calls("event_mm_free_") if is_e(strip(el.e[2][0]), "var") and strip(el.e[2][0])[1] == "server_req"]
+    releases = ("server_request_free", "server_request_free_answers", "evdns_server_request_drop", "evdns_server_request_respond")
+    r.inst("exit", {"fn": f.name, "bare_free_of_request": [x.where() for x in bare]})
+    if not bare:
+        r.brk("request_parse: the failure exit (free of server_req) was not found")
+        return r
+    for el in adds:
+        w = f.path_avoiding(el.pos(), lambda x: any(x is b for b in bare), lambda x: x.e[0] == "call" and callee_name(x.e) in releases)
+        r.inst(("add", el.n), {"site": el.where(), "adds": callee_name(el.e), "failure_exit_reachable_afterwards": w.where() if w is not None else None})
+        if w is not None:
+            r.bad("K11:request_parse:reply-item-lost-on-failure", el.where(), f.name,
+                  "after %s attached a reply item to the request, parsing can still fail and reach the free of the request at line %d, which releases the questions and the request but not the "
+                  "reply items: every such packet leaks them (a peer can repeat it without limit)" % (callee_name(el.e), w.line))
+    if not adds:
+        r.brk("request_parse: no reply item is added while parsing (OPT handling not found)")
+    return r
+
+
 def run(ctx, config):
     P = ctx.prog(UNITS, config)
     rules = []
@@ -156,6 +181,7 @@ def run(ctx, config):
             r3.bad("K11:request_parse:server_req:leak", alloc[0].where(), f.name, "server_req is neither freed nor handed to the responder/user on the path returning at line %s" % getattr(w, "line", "?"))
     rules.append(r3)
     rules.append(rule_tcpframe(P))
+    rules.append(rule_reply_items(P))
     return rules
 
 
